@@ -208,7 +208,7 @@ func runCfg(n *node, f *frame, funcNode, callNode *node) {
 		f.mutex.Lock()
 		f.recovered = recover()
 		for _, val := range f.deferred {
-			val[0].Call(val[1:])
+			runDeferred(f, val)
 		}
 		if f.recovered != nil {
 			oNode := originalExecNode(n, exec)
@@ -269,6 +269,17 @@ func runCfg(n *node, f *frame, funcNode, callNode *node) {
 			m = originalExecNode(m, exec)
 		}
 	}
+}
+
+// runDeferred runs a deferred call of frame f. A panic raised by the call replaces
+// the current panic of the frame, and the deferred calls still pending are run.
+func runDeferred(f *frame, val []reflect.Value) {
+	defer func() {
+		if r := recover(); r != nil {
+			f.recovered = r
+		}
+	}()
+	val[0].Call(val[1:])
 }
 
 func stripReceiverFromArgs(signature string) (string, error) {
